@@ -155,7 +155,19 @@ def evaluate(ck, hb, cases, stats, search=True):
                 else:
                     rcase = reference_case_for(c) if search else None
                     extra.append((c, mo[c], i, rcase))
-        # ---- exact values for polynomial integrands through the real Integrator
+        # ---- orbit structure of the compiled table (replay of quadrature_point_set_symmetric / ..._rule3_refuted)
+        if op == 10 and iz and len(iz) > 1:
+            nodes = [tuple(if_[4 * k:4 * k + 4]) for k in range(iz[1])]
+            S = set(nodes); bad_node = None
+            for (a, b, cc, w) in nodes:
+                for q in ((b, cc, a, w), (cc, a, b, w), (b, a, cc, w), (a, cc, b, w), (cc, b, a, w)):
+                    if q not in S and bad_node is None: bad_node = q
+            st["asymmetric_tables"] = st.get("asymmetric_tables", 0) + (1 if bad_node else 0)
+            if ints[1] == 3 and bad_node is None:
+                viol("rule 3: refuted exact symmetry does not reproduce", "quadrature_point_set_symmetric_rule3_refuted says the 16-point table is not exactly symmetric, the compiled table is: the model is not the code")
+            if bad_node is not None:
+                viol("rule %d: node set not closed under coordinate permutations, missing image (%.15f, %.15f, %.15f)" % ((ints[1],) + bad_node[:3]),
+                     "Integrator::rules[%d]: the image (%.15f, %.15f, %.15f) weight %.15f of a node under a permutation of the barycentric coordinates is not a node: rotating the vertices of a triangle changes the rule's value (at the 1e-15 level)" % ((ints[1],) + bad_node))
         if op == 11:
             o, depth, a, b, cc = ints[1:6]
             ex = g.dirichlet(a, b, cc)
